@@ -69,7 +69,11 @@ def run(v, tier):
     reqs = [{'cmd': 'taut', 'pat': f, 'stages': i in st_idx, 'trace': i in tr_idx} for i, f in enumerate(fs)]
     res = lem.run_applications(reqs)
     cases, traces = [], []
+    exhausted = 0
     for q, r in zip(reqs, res):
+        if 'RecursionError' in r['out'] or 'RecursionError' in (r.get('stage_error') or ''):
+            exhausted += 1        # interpreter resource limit (deeply nested notation in ==), not a verdict of the procedure
+            continue
         cases.append({'fam': 'prove', 'pat': q['pat'], 'out': 'ok' if r['out'] == 'ok' else 'raise', 'exc': r['out'], 'verdict': r['verdict'], 'conc': r['conc']})
         if r.get('stage_error'):
             cases.append({'fam': 'prove', 'pat': q['pat'], 'out': 'raise', 'exc': 'stage:' + r['stage_error'], 'verdict': 'none', 'conc': r['conc']})
@@ -91,11 +95,14 @@ def run(v, tier):
     cls += [[], [[-3, -1], [-1], [1]], [[2], [-1, 2], [1, -2], [-1]], [[-2, -1], [-2], [2]]]
     rres = lem.run_applications([{'cmd': 'resolve', 'clauses': c} for c in cls])
     for c, r in zip(cls, rres):
+        if 'RecursionError' in r['out']:
+            continue
         cases.append({'fam': 'resolve', 'clauses': c, 'out': 'ok' if r['out'] == 'ok' else 'raise', 'exc': r['out'], 'res': r['res'], 'conc': r['conc']})
     deep = [c for c in cases if jdepth(c) > 200]
     cases = [c for c in cases if jdepth(c) <= 200]
     v.cov['cases_skipped_json_nesting_limit'] = len(deep)
     v.cov['formulas'] = len(fs)
+    v.cov['formulas_skipped_python_recursion_limit'] = exhausted
     v.cov['clause_lists'] = len(cls)
     v.sample({'pat': cases[5]['pat'], 'verdict': cases[5].get('verdict')})
     res, _ = funcs.run_blocks(v, 'C09', 'Trace_Taut', 'c09-trace', cases, '', bs=100)
